@@ -31,3 +31,21 @@ Fixpoint mismatches_from (i : nat) (cs : list case) : list nat :=
   | c :: t => if check_case c then mismatches_from (S i) t else i :: mismatches_from (S i) t
   end.
 Definition mismatches := mismatches_from 0.
+
+(* Probe cases: histories executed inside a template by the real binary, starting from the
+   registry and the method scope of a real method.  The initial registry is given by its
+   (path, qualifier) listing, the initial scope by the names that answered NameExists = true. *)
+Record pcase := { p_dst : str; p_inpkg : bool; p_imports : list (str * str); p_scope : list str;
+                  p_ops : list op; p_obs : list out }.
+Definition p_init (c : pcase) : state :=
+  ({| dst := p_dst c; inpkg := p_inpkg c;
+      imports := map (fun pq => {| ipath := fst pq; iname := snd pq; ialias := [] |}) (p_imports c) |},
+   p_scope c).
+Definition p_model_outs (c : pcase) : list out := map snd (trace (p_init c) (p_ops c)).
+Definition p_check (c : pcase) : bool := list_eqb out_eqb (p_model_outs c) (p_obs c).
+Fixpoint p_mismatches_from (i : nat) (cs : list pcase) : list nat :=
+  match cs with
+  | [] => []
+  | c :: t => if p_check c then p_mismatches_from (S i) t else i :: p_mismatches_from (S i) t
+  end.
+Definition p_mismatches := p_mismatches_from 0.
